@@ -117,3 +117,27 @@ func readBad(p string) ([]Bad, error) {
 	}
 	return bads, sc.Err()
 }
+
+// FirstBad returns, per run, the reasons TLC recorded at the first rejected line of that run
+// (later rejections of the same run may be consequences of the first).
+func FirstBad(st *ValStats) map[string][]string {
+	first := map[string]int{}
+	for _, b := range st.Bad {
+		if l, ok := first[b.Run]; !ok || b.L < l {
+			first[b.Run] = b.L
+		}
+	}
+	out := map[string][]string{}
+	for _, b := range st.Bad {
+		if b.L == first[b.Run] {
+			dup := false
+			for _, w := range out[b.Run] {
+				dup = dup || w == b.Why
+			}
+			if !dup {
+				out[b.Run] = append(out[b.Run], b.Why)
+			}
+		}
+	}
+	return out
+}
